@@ -168,6 +168,11 @@ impl<F: Float> Transformer<Kernel<F>, DatasetBase<Kernel<F>, Vec<usize>>>
         }
 
         // flatten resulting clusters and reverse index
+        // number the clusters in the order of their keys (original node index or merge step):
+        // the iteration order of the hash map changes from run to run
+        let mut clusters = clusters.into_iter().collect::<Vec<_>>();
+        clusters.sort_unstable_by_key(|(key, _)| *key);
+
         let mut tmp = vec![0; num_observations];
         for (i, (_, ids)) in clusters.into_iter().enumerate() {
             for id in ids {
